@@ -426,8 +426,23 @@ func (u *Unit) storeField(st *State, ref Val, owner types.Type, f *types.Var, v 
 		return
 	}
 	u.checkAssigns(st, key, ref, n)
+	u.checkImmutableWrite(st, key, ref, n)
 	st.heap[key] = "(store " + h + " " + ref.T + " " + v.T + ")"
 	u.bumpEpoch(st)
+}
+
+// checkImmutableWrite: a field declared immutable may only be written on an object that was
+// allocated by the current function, or on a parameter object the contract lists in `assigns`
+// (constructor helpers; their call sites are checked in turn).
+func (u *Unit) checkImmutableWrite(st *State, key string, ref Val, n ast.Node) {
+	if u.suppressAssigns || u.inSpec || !u.prog.CS.Immutable[key] || u.entry == nil {
+		return
+	}
+	alts := []string{"(> " + ref.T + " " + u.entry.alloc + ")"}
+	if u.con != nil && u.con.HasAssigns && len(u.inlineStack) == 0 {
+		alts = append(alts, u.frameAllows(st, u.con, u.entryBindings(nil), u.entry, key, ref.T))
+	}
+	u.oblige(st, fmt.Sprintf("immutable#%d", u.frameSite(n, "imm:"+key)), "frame", or(alts...), []string{"C03"}, nil, "write to immutable field "+key+" only on an object under construction", n)
 }
 
 // storeDeref: *p = v
